@@ -65,13 +65,8 @@ def main():
                     verdict = "CAUGHT" if (r.returncode == 1 and viol) else ("silent" if r.returncode == 0 else f"exit{r.returncode}")
                     print(f"RESULT {name} check={c} tier={tier} seed={s} {verdict} viol={len(viol)} known={len(kf)} build={bt:.0f}s run={time.time()-t1:.0f}s log={log}", flush=True)
                     if viol:
-                        ev = f"{base}/root/evidence/{c}.json"
-                        try:
-                            j = json.load(open(ev))
-                            for v in j.get("violations", [])[:3]:
-                                print("   ", json.dumps(v)[:400], flush=True)
-                        except Exception as e:
-                            print("    (no evidence)", e)
+                        for l in [l for l in out.splitlines() if l.strip().startswith(("signature:", "what:"))][:4]:
+                            print("   ", l.strip()[:300], flush=True)
         sh(f"patch -R -p1 --no-backup-if-mismatch < {patch}", cwd=f"{base}/repo")
         d2 = sh(f"diff -rq --exclude target --exclude .git /repo {base}/repo | head -3")
         if d2.stdout.strip():
